@@ -1,5 +1,6 @@
 import GitBugModel.Model.GitTree
 import GitBugModel.Model.Refs
+import GitBugModel.Gen.Frame
 import Std.Data.String.ToInt
 /-!
 # C15 — git-bug never disturbs the host repository and writes only valid git data
@@ -80,19 +81,27 @@ theorem strictlySorted_of (l : List Entry) (hs : l.Pairwise le) (hn : (l.map key
       | inl h => exact h
       | inr h => exact absurd (String.le_antisymm hle (String.not_lt.mp h)) hne
 
+theorem distinct_iff (l : List String) : distinct l = true ↔ l.Nodup := by
+  induction l with
+  | nil => simp [distinct]
+  | cons a t ih => simp [distinct, ih, List.nodup_cons]
+
 /-- `sorted_tree_fsck_ok`: whatever entries are handed to `StoreTree`, if their names are legal and
-no two of them collide, the stored tree is what `git fsck --strict` accepts: legal names in
+no two of them collide, the stored tree is what `git fsck --strict` accepts: legal, distinct names in
 strictly increasing git order. -/
 theorem sorted_tree_fsck_ok (l : List Entry) (hn : l.all (fun e => nameOk e.name) = true)
-    (hd : (l.map key).Nodup) : fsckTreeOk (sortTree l) = true := by
+    (hd : (l.map key).Nodup) (hnames : (l.map (·.name)).Nodup) : fsckTreeOk (sortTree l) = true := by
   unfold fsckTreeOk
-  rw [Bool.and_eq_true]
-  constructor
+  rw [Bool.and_eq_true, Bool.and_eq_true]
+  refine ⟨⟨?_, ?_⟩, ?_⟩
   · rw [List.all_eq_true] at hn ⊢
     intro e he
     exact hn e ((sortTree_perm l).mem_iff.mp he)
   · apply strictlySorted_of _ (sortTree_sorted l)
     exact ((sortTree_perm l).map key).nodup_iff.mpr hd
+  · unfold namesDistinct
+    rw [distinct_iff]
+    exact ((sortTree_perm l).map (·.name)).nodup_iff.mpr hnames
 
 /-! ## the names git-bug uses -/
 
@@ -161,6 +170,23 @@ theorem pack_tree_fsck_ok (version edit create : Nat) (hasFiles : Bool) :
     have t5 : two "extra/" = ['e', 'x'] := by decide
     unfold packEntries
     by_cases hc : create > 0 <;> cases hasFiles <;> simp [hc, key, -Nat.toString_eq_repr, t1, t2, t3, t4, t5]
+  · have inj : ∀ (l : List String), (l.map two).Nodup → l.Nodup := by
+      intro l
+      induction l with
+      | nil => intro _; exact List.nodup_nil
+      | cons a t ih =>
+        intro h
+        rw [List.map_cons, List.nodup_cons] at h
+        rw [List.nodup_cons]
+        exact ⟨fun ha => h.1 (List.mem_map.mpr ⟨a, ha, rfl⟩), ih h.2⟩
+    apply inj
+    have t1 : two ("version-" ++ toString version) = ['v', 'e'] := by rw [two_append _ _ (by decide)]; decide
+    have t2 : two ("edit-clock-" ++ toString edit) = ['e', 'd'] := by rw [two_append _ _ (by decide)]; decide
+    have t3 : two ("create-clock-" ++ toString create) = ['c', 'r'] := by rw [two_append _ _ (by decide)]; decide
+    have t4 : two "ops" = ['o', 'p'] := by decide
+    have t5 : two "extra" = ['e', 'x'] := by decide
+    unfold packEntries
+    by_cases hc : create > 0 <;> cases hasFiles <;> simp [hc, -Nat.toString_eq_repr, t1, t2, t3, t4, t5]
 
 theorem repr_inj {i j : Nat} (h : toString i = toString j) : i = j := by
   rw [Nat.toString_eq_repr, Nat.toString_eq_repr] at h
@@ -201,6 +227,26 @@ theorem extra_tree_fsck_ok (n : Nat) : fsckTreeOk (sortTree (extraEntries n)) = 
         intro hm
         obtain ⟨b, hb, hab⟩ := List.mem_map.mp hm
         have := inj b a hab
+        subst this
+        exact h.1 hb
+    exact gen _ List.nodup_range
+  · unfold extraEntries
+    rw [List.map_map]
+    have gen : ∀ (l : List Nat), l.Nodup → (l.map ((·.name) ∘ fun i => ({ name := "file" ++ toString i, isTree := false } : Entry))).Nodup := by
+      intro l
+      induction l with
+      | nil => intro _; exact List.nodup_nil
+      | cons a t ih =>
+        intro h
+        rw [List.nodup_cons] at h
+        rw [List.map_cons, List.nodup_cons]
+        refine ⟨?_, ih h.2⟩
+        intro hm
+        obtain ⟨b, hb, hab⟩ := List.mem_map.mp hm
+        simp only [Function.comp] at hab
+        have : ("file" ++ toString b).toList = ("file" ++ toString a).toList := by rw [hab]
+        rw [String.toList_append, String.toList_append] at this
+        have := repr_inj (String.ext (List.append_cancel_left this))
         subst this
         exact h.1 hb
     exact gen _ List.nodup_range
@@ -252,10 +298,33 @@ theorem host_refs_untouched (refs remotes : List String) :
     cases remotes.any (fun rm => isTrackingOf rm "bugs" r) <;>
     cases remotes.any (fun rm => isTrackingOf rm "identities" r) <;> rfl
 
+/-! ## regenerated obligations: the literals the source builds names from -/
+
+def startsWith (s p : String) : Bool := p.toList.isPrefixOf s.toList
+
+/-- every literal from which a ref name, a ref prefix or a refspec is built starts inside the
+namespaces: `refs/<ns>/…`, `refs/remotes/<remote>/<ns>/…`, or the identity patterns; the two
+refspecs map a namespace onto itself or onto its remote mirror -/
+theorem gen_ref_literals :
+    GitBugModel.Gen.Frame.refLiterals.all (fun l =>
+      ["refs/%s/", "refs/remotes/%s/%s/", "refs/identities/", "refs/remotes/%s/identities/", "refs/bugs"].any (startsWith l)) = true ∧
+    (GitBugModel.Gen.Frame.refLiterals.filter (fun l => l.toList.contains ':')) =
+      ["refs/%s/*:refs/%s/*", "refs/%s/*:refs/remotes/%s/%s/*"] := by
+  decide
+
+/-- every configuration literal is `git-bug` or lies under `git-bug.`; the storage directory is
+`.git/git-bug` -/
+theorem gen_config_literals :
+    GitBugModel.Gen.Frame.configLiterals.all (fun l => l == "git-bug" || startsWith l "git-bug.") = true ∧
+    GitBugModel.Gen.Frame.configLiterals ≠ [] ∧
+    GitBugModel.Gen.Frame.namespaces = ["git-bug"] := by
+  decide
+
 /-! ## non-vacuity: git's order is not the plain name order -/
 
 example : (sortTree [{ name := "a0", isTree := false }, { name := "a", isTree := true }, { name := "a.b", isTree := false }]).map (·.name)
     = ["a.b", "a", "a0"] := by decide
-example : fsckTreeOk [{ name := "a", isTree := true }, { name := "a.b", isTree := false }] = false := by decide
+example : fsckTreeOk [{ name := "a", isTree := true }, { name := "a.b", isTree := false }] = false ∧
+    fsckTreeOk [{ name := "a", isTree := false }, { name := "a", isTree := true }] = false := by decide
 
 end GitBugModel.Props.C15
